@@ -16,6 +16,8 @@ package main
 // nondet_sites_closed (Properties/C08.v) is `forallb classified sites = true`.
 
 import (
+	"crypto/sha256"
+	"encoding/hex"
 	"encoding/json"
 	"fmt"
 	"go/ast"
@@ -38,6 +40,8 @@ type c08Site struct {
 	Class                 string // from the reviewed table, or ""
 	Pos                   string // file:line, informational only (not part of the key)
 	FuncKey               string // import path + "." + [Recv.]Name of the enclosing function
+	Body                  string // MapRange: hash of the range statement and of everything that follows it in its block
+	Stale                 string // a table entry matched the key but was reviewed against another body
 }
 
 type c08TableEntry struct {
@@ -47,7 +51,11 @@ type c08TableEntry struct {
 	Expr  string `json:"expr"`
 	Ord   int    `json:"ord"`
 	Class string `json:"class"`
-	Note  string `json:"note,omitempty"`
+	// Body binds a reviewed MapRange classification to the code that was reviewed: the hash of the range
+	// statement and of the statements after it in the same block (what consumes the loop's result).  A change
+	// there un-classifies the site until it is reviewed again.
+	Body string `json:"body,omitempty"`
+	Note string `json:"note,omitempty"`
 }
 
 var c08Patterns = []string{"./x/...", "./util/...", "./app/..."}
@@ -245,8 +253,13 @@ func extractC08(c *Ctx) error {
 				if strings.HasPrefix(e.Class, "benign:unreferenced") && usedFuncs[s.FuncKey] {
 					return fmt.Errorf("%s: %s %s is classified %q but the function is referenced from non-test code", tablePath, s.Pkg, s.Func, e.Class)
 				}
-				s.Class = e.Class
 				used[i] = true
+				if s.Kind == "MapRange" && e.Body != s.Body {
+					// reviewed against other code: not accepted until reviewed again
+					s.Stale = fmt.Sprintf("reviewed body %q, current body %q", e.Body, s.Body)
+					continue
+				}
+				s.Class = e.Class
 			}
 		}
 	}
@@ -286,12 +299,15 @@ func extractC08(c *Ctx) error {
 		if i+1 == len(sites) {
 			sep = ""
 		}
+		if s.Body != "" {
+			c.P("  (* body %s %s *)", s.Body, s.Stale)
+		}
 		c.P("  (* %s *) {| s_kind := %s; s_pkg := %s; s_func := %s; s_expr := %s; s_ord := %d; s_auto := %s; s_class := %s |}%s",
 			s.Pos, CoqStr(s.Kind), CoqStr(s.Pkg), CoqStr(s.Func), CoqStr(c08Ascii(s.Expr)), s.Ord, CoqStr(s.Auto), CoqStr(c08Ascii(s.Class)), sep)
 		byKind[s.Kind]++
 		if s.Auto == "" && s.Class == "" {
 			unclassified++
-			uncl = append(uncl, c08TableEntry{Kind: s.Kind, Pkg: s.Pkg, Func: s.Func, Expr: s.Expr, Ord: s.Ord, Class: "", Note: s.Pos})
+			uncl = append(uncl, c08TableEntry{Kind: s.Kind, Pkg: s.Pkg, Func: s.Func, Expr: s.Expr, Ord: s.Ord, Class: "", Body: s.Body, Note: s.Pos + " " + s.Stale})
 		}
 	}
 	c.P("].")
@@ -330,7 +346,7 @@ func extractC08(c *Ctx) error {
 	if os.Getenv("C08_DUMP") != "" {
 		var all []c08TableEntry
 		for _, s := range sites {
-			all = append(all, c08TableEntry{Kind: s.Kind, Pkg: s.Pkg, Func: s.Func, Expr: s.Expr, Ord: s.Ord, Class: s.Class, Note: s.Pos + " auto=" + s.Auto})
+			all = append(all, c08TableEntry{Kind: s.Kind, Pkg: s.Pkg, Func: s.Func, Expr: s.Expr, Ord: s.Ord, Class: s.Class, Body: s.Body, Note: s.Pos + " auto=" + s.Auto})
 		}
 		js, _ := json.MarshalIndent(all, "", " ")
 		_ = os.WriteFile(os.Getenv("C08_DUMP"), js, 0o644)
@@ -406,6 +422,23 @@ func c08ScanFile(c *Ctx, p *packages.Package, f *ast.File, rel string) ([]*c08Si
 			Pos: fmt.Sprintf("%s:%d", rel, pos.Line), FuncKey: p.PkgPath + "." + fn})
 	}
 	scan := func(fn string, recv *types.Var, recvPtr bool, body ast.Node, enclosing *ast.FuncDecl) {
+		// statement lists, to find what follows a range statement in its block
+		rest := map[ast.Stmt][]ast.Stmt{}
+		ast.Inspect(body, func(n ast.Node) bool {
+			var list []ast.Stmt
+			switch b := n.(type) {
+			case *ast.BlockStmt:
+				list = b.List
+			case *ast.CaseClause:
+				list = b.Body
+			case *ast.CommClause:
+				list = b.Body
+			}
+			for i, st := range list {
+				rest[st] = list[i:]
+			}
+			return true
+		})
 		ast.Inspect(body, func(n ast.Node) bool {
 			switch x := n.(type) {
 			case *ast.RangeStmt:
@@ -416,6 +449,16 @@ func c08ScanFile(c *Ctx, p *packages.Package, f *ast.File, rel string) ([]*c08Si
 				}
 				if c08CoreMap(t) {
 					add("MapRange", fn, c.Src(x.X), x, c08AutoMapRange(c, info, x, enclosing))
+					h := sha256.New()
+					tail := rest[ast.Stmt(x)]
+					if tail == nil {
+						tail = []ast.Stmt{x}
+					}
+					for _, st := range tail {
+						h.Write([]byte(strings.Join(strings.Fields(c.Src(st)), " ")))
+						h.Write([]byte{0})
+					}
+					out[len(out)-1].Body = hex.EncodeToString(h.Sum(nil))[:12]
 				} else if _, isChan := t.Underlying().(*types.Chan); isChan {
 					add("ChanRange", fn, c.Src(x.X), x, "")
 				} else if _, isFn := t.Underlying().(*types.Signature); isFn {
